@@ -255,7 +255,13 @@ func (c *Ctx) ContributionRules(prop string) {
 	{
 		F := p.Methods["OnCommit"]
 		found := false
-		for _, b := range F.Blocks {
+		var aggBlocks []*ssa.BasicBlock
+		for _, g := range c.StaticReach(F, 2) {
+			if g == F || (g.Blocks != nil && prog.PkgPathOf(g) == pkg) {
+				aggBlocks = append(aggBlocks, g.Blocks...)
+			}
+		}
+		for _, b := range aggBlocks {
 			for _, ins := range b.Instrs {
 				mk, ok := ins.(*ssa.MakeSlice)
 				if !ok || !strings.Contains(an.TypeStr(mk.Type()), "PublicKey") {
@@ -319,7 +325,7 @@ func (c *Ctx) ContributionRules(prop string) {
 						mf := mf
 						target := c2.(ssa.Instruction)
 						x, path := an.Cut(an.CutQuery{From: an.Entry(other), Target: func(i ssa.Instruction) bool { return i == target },
-							AcceptEdge: func(b *ssa.BasicBlock, i int, a *an.Atom) bool {
+							AcceptEdge: c.WithSummaries(func(a *an.Atom, sub Subst) bool {
 								if a == nil || a.Op != "==" {
 									return false
 								}
@@ -329,10 +335,10 @@ func (c *Ctx) ContributionRules(prop string) {
 										return false
 									}
 									ff, base := p.sessionFieldOf(call.Call.Args[0])
-									return ff == f && base == gen
+									return ff == f && sub.Res(base) == gen
 								}
 								return (isLenOf(a.LV, mf) && isLenOf(a.RV, listFld)) || (isLenOf(a.RV, mf) && isLenOf(a.LV, listFld))
-							}})
+							})})
 						if x != nil {
 							c.R.Fail(rule3, Fn(other)+":"+mf, c.Pos(c2), "the account can be written although not every listed participant has contributed ("+mf+")", "store only below [len("+mf+") == len(participants)]", an.PathString(c.Pos, path))
 						} else {
@@ -724,18 +730,48 @@ func (c *Ctx) ThresholdRules(prop string) {
 			for _, e := range errValuesOfCall(ci) {
 				errs[e] = true
 			}
-			isAdd := func(i ssa.Instruction) bool {
+			var isAddOf func(i ssa.Instruction, acct ssa.Value, depth int) bool
+			isAddOf = func(i ssa.Instruction, acct ssa.Value, depth int) bool {
 				x, ok := i.(ssa.CallInstruction)
-				if !ok || !x.Common().IsInvoke() || !namedIs(x.Common().Value.Type(), pkgFetcher, "Service") || x.Common().Method.Name() != "AddAccount" {
+				if !ok {
 					return false
 				}
-				for _, a := range x.Common().Args {
-					if a == acct {
+				if x.Common().IsInvoke() {
+					if !namedIs(x.Common().Value.Type(), pkgFetcher, "Service") || x.Common().Method.Name() != "AddAccount" {
+						return false
+					}
+					for _, a := range x.Common().Args {
+						if a == acct {
+							return true
+						}
+					}
+					return false
+				}
+				// a package helper that is given the account and passes AddAccount(account) on every path to its return
+				h := x.Common().StaticCallee()
+				if h == nil || depth > 1 || h.Blocks == nil || prog.PkgPathOf(h) != p.Impl.Obj().Pkg().Path() {
+					return false
+				}
+				if _, isDefer := i.(*ssa.Defer); isDefer {
+					return false
+				}
+				if _, isGo := i.(*ssa.Go); isGo {
+					return false
+				}
+				for ai, a := range x.Common().Args {
+					if a != acct || ai >= len(h.Params) {
+						continue
+					}
+					hp := h.Params[ai]
+					y, _ := an.Cut(an.CutQuery{From: an.Entry(h), Target: func(j ssa.Instruction) bool { _, ok := j.(*ssa.Return); return ok },
+						AcceptInstr: func(j ssa.Instruction) bool { return isAddOf(j, hp, depth+1) }})
+					if y == nil {
 						return true
 					}
 				}
 				return false
 			}
+			isAdd := func(i ssa.Instruction) bool { return isAddOf(i, acct, 0) }
 			// every nil-error return after a successful creation passes AddAccount(account)
 			k := errResultIndex(fn)
 			bad := false
